@@ -104,7 +104,7 @@ def d3_response_is_current(ctx, rm: REModel):
     ctx.ob("C13.D3-response-belongs-to-this-message", cname(run, None, "finally: if resp is not sentinel: push new_response"), ok,
            "" if ok else "the re-push of the response changed shape", where=where(run, it))
     # the command executed is the one registered for this message's command and it receives this message
-    ok = any("self._command_registry.get(msg.command" in A.norm(s) for s in A.walk_stmts(it.body)) and \
+    ok = any("self._command_registry.get(msg.command" in A.norm(s) or A.norm(s) == "coro = self._command_registry[msg.command]" for s in A.walk_stmts(it.body)) and \
         any(isinstance(s, ast.Assign) and A.norm(s) == "new_response = await coro(msg)" for s in A.walk_stmts(it.body))
     ctx.ob("C13.D3-response-belongs-to-this-message", cname(run, None, "coro looked up by msg.command and called with msg"), ok, "" if ok else "dispatch changed", where=where(run, it))
     # msg comes from the top plan via send(resp) / throw
@@ -132,7 +132,16 @@ def d4_run_uids(ctx, rm: REModel):
         ctx.ob("C13.D4-run-uids", cname(f, None, "returns the uids in order (or the result object)"), ok, "" if ok else "return value changed", where=where(f, f.node))
     cr = rm.m("_create_result")
     c = A.find_calls(cr.node, "RunEngineResult")
-    ok = bool(c) and [A.norm(a) for a in c[0].args[:3]] == ["tuple(self._run_start_uids)", "plan_return", "self._exit_status"]
+    fields = [s.target.id for s in rm.repo.cls(MOD, "RunEngineResult").node.body if isinstance(s, ast.AnnAssign) and isinstance(s.target, ast.Name)]
+    got = {}
+    if c:
+        for i, a in enumerate(c[0].args):
+            if i < len(fields):
+                got[fields[i]] = A.norm(a)
+        for k in c[0].keywords:
+            if k.arg:
+                got[k.arg] = A.norm(k.value)
+    ok = bool(c) and len(fields) >= 3 and [got.get(x) for x in fields[:3]] == ["tuple(self._run_start_uids)", "plan_return", "self._exit_status"]
     ctx.ob("C13.D4-run-uids", cname(cr, None, "RunEngineResult(uids, plan_return, exit_status, ...)"), ok, "" if ok else "result fields permuted", where=where(cr, cr.node))
     # plan_return comes from the StopIteration of the last plan
     lad = [h2 for h2 in rm.outer_try.handlers if h2.type is not None and A.norm(h2.type) == "StopIteration" and h2.name]
